@@ -9,7 +9,7 @@ ConnMC == {"c1", "c2"}
 RowsMC == {"r1", "r2", "r3", "r4", "r5", "r6", "r7", "r8", "r9", "r10", "r11"}
 RowModMC == "r1" :> "m1" @@ "r2" :> "m1" @@ "r3" :> "m1" @@ "r4" :> "m1" @@ "r5" :> "m1" @@ "r6" :> "m2" @@ "r7" :> "m1" @@ "r8" :> "m1" @@ "r9" :> "m1" @@ "r10" :> "m1" @@ "r11" :> "m1"
 RowQnMC == "r1" :> <<109, 121, 95, 102, 117, 110, 99>> @@ "r2" :> <<109, 121, 88, 102, 117, 110, 99>> @@ "r3" :> <<77, 89, 95, 70, 85, 78, 67>> @@ "r4" :> <<70, 111, 111, 46, 98, 97, 114>> @@ "r5" :> <<102, 111, 111>> @@ "r6" :> <<109, 121, 95, 102, 117, 110, 99>> @@ "r7" :> <<97, 37, 98>> @@ "r8" :> <<97, 88, 98>> @@ "r9" :> <<109, 121, 95, 102, 117, 110, 99>> @@ "r10" :> <<109, 121, 95, 102, 117, 110, 99>> @@ "r11" :> <<109, 121, 95, 102, 117, 110, 99>>
-BatchesMC == "b1" :> [rows |-> {"r1", "r2"}, bad |-> 0] @@ "b2" :> [rows |-> {"r3", "r5", "r1"}, bad |-> 1] @@ "b3" :> [rows |-> {"r4", "r6", "r9"}, bad |-> 0] @@ "b4" :> [rows |-> {"r7", "r8", "r10"}, bad |-> 1] @@ "b5" :> [rows |-> {}, bad |-> 2] @@ "b6" :> [rows |-> {"r11", "r9"}, bad |-> 0]
+BatchesMC == "b1" :> [rows |-> {"r1", "r2"}, bad |-> 0] @@ "b2" :> [rows |-> {"r3", "r5", "r1"}, bad |-> 1] @@ "b3" :> [rows |-> {"r4", "r6", "r9"}, bad |-> 0] @@ "b4" :> [rows |-> {"r7", "r8", "r10"}, bad |-> 1] @@ "b5" :> [rows |-> {}, bad |-> 2] @@ "b6" :> [rows |-> {"r11", "r9", "r10"}, bad |-> 0]
 ModsMC == {"m1", "m2"}
 QPrefixesMC == {NoPrefix, <<109, 121, 95, 102, 117, 110, 99>>, <<102, 111, 111>>, <<109, 121>>, <<97, 37>>, <<70, 111, 111, 46>>}
 LimitsMC == {1, 2000}
